@@ -218,6 +218,7 @@ fn has_exclude(e: &EntityRef, t: u32) -> bool {
         T_VISIBILITY => e.contains::<SyncExclude<Visibility>>(),
         T_POINTLIGHT => e.contains::<SyncExclude<PointLight>>(),
         T_NAME => e.contains::<SyncExclude<Name>>(),
+        T_SKIN => e.contains::<SyncExclude<SkinnedMesh>>(),
         _ => false,
     }
 }
@@ -240,6 +241,7 @@ fn set_exclude(world: &mut World, e: Entity, t: u32, on: bool) {
         T_VISIBILITY => ex!(Visibility),
         T_POINTLIGHT => ex!(PointLight),
         T_NAME => ex!(Name),
+        T_SKIN => ex!(SkinnedMesh),
         _ => panic!("exclude {}", t),
     }
 }
@@ -1226,7 +1228,7 @@ impl Session {
                 comps.push((T_SKIN, format!("skin[{}][{}]", joints.join(";"), poses)));
             }
             comps.sort();
-            let excl: Vec<String> = (0..8).filter(|t| has_exclude(&er, *t)).map(|t| t.to_string()).collect();
+            let excl: Vec<String> = (0..9).filter(|t| has_exclude(&er, *t)).map(|t| t.to_string()).collect();
             elines.push(format!(
                 "E {} {} mark={} sync={} parent={} children={} excl={} comps={}",
                 p,
